@@ -48,3 +48,7 @@ Definition jolt_replay_i (tolerance : float) (trace : list (V3 float * V3 float)
   | XAns true it => (ds, 1, Z.of_nat it)
   | XAns false it => (ds, 0, Z.of_nat it)
   end.
+
+Definition jolt_replay_y (tolerance max_distance_squared : float) (trace : list (V3 float * V3 float))
+  : list (list (list float)) :=
+  map (map v3l) (@replay_simplices float FOps (tolerance * tolerance)%float max_distance_squared trace dstate0).
